@@ -26,6 +26,9 @@ type E2ECase struct {
 	// Queues: the limited hook has this many schedule bindings, each in a queue of its own (0 or 1: one binding);
 	// every injected tick round fires all of them. The limit is per hook, not per queue.
 	Queues int `json:"queues,omitempty"`
+	// Kube: number of (ungrouped) kubernetes bindings of the limited hook: their Synchronization executions at
+	// start-up are executions of the hook like any other
+	Kube int `json:"kube,omitempty"`
 }
 
 func genE2E(t *rapid.T) E2ECase {
@@ -38,6 +41,7 @@ func genE2E(t *rapid.T) E2ECase {
 		GapMs:       rapid.SampledFrom([]int{0, 0, 20, 100}).Draw(t, "gap"),
 		SharedQueue: rapid.Bool().Draw(t, "shared"),
 		Queues:      rapid.SampledFrom([]int{1, 1, 2, 3}).Draw(t, "queues"),
+		Kube:        rapid.SampledFrom([]int{0, 0, 0, 3, 4}).Draw(t, "kube"),
 	}
 }
 
@@ -56,6 +60,9 @@ func runE2E(c E2ECase) (ev.Info, error) {
 	extraCrontabs := []string{"0 0 3 1 *", "0 0 4 1 *"}
 	for j := 1; j < c.Queues && j <= 2; j++ {
 		d.Schedules = append(d.Schedules, hcfg.Sched{Name: fmt.Sprintf("tick%d", j), Crontab: extraCrontabs[j-1], Queue: fmt.Sprintf("qx%d", j)})
+	}
+	for j := 0; j < c.Kube; j++ {
+		d.Kube = append(d.Kube, hcfg.Kube{Name: fmt.Sprintf("k%d", j), Kind: "ConfigMap", ApiVersion: "v1"})
 	}
 	if c.HasSettings {
 		d.Settings = &hcfg.Settings{Interval: fmt.Sprintf("%dms", c.IntervalMs), Burst: c.Burst}
@@ -128,6 +135,9 @@ func runE2E(c E2ECase) (ev.Info, error) {
 	if c.Queues > 1 {
 		info.Labels = append(info.Labels, "bindings-in-several-queues")
 	}
+	if c.Kube > 0 {
+		info.Labels = append(info.Labels, "synchronizations-at-start")
+	}
 	for i := 0; i < len(starts); i++ {
 		for j := i + 1; j < len(starts); j++ {
 			T := time.Duration(starts[j] - starts[i])
@@ -141,7 +151,7 @@ func runE2E(c E2ECase) (ev.Info, error) {
 	return info, nil
 }
 
-const ruleE2E = "the real operator with a scripted hook carrying settings (executionMinInterval 200-400ms, executionBurst 1-2, or none) in its own or the main queue (shared with an unthrottled hook), in half of the cases with 2-3 schedule bindings in queues of their own (the limit is per hook); 2-6 tick rounds injected as a burst or with gaps; the first execution fails 0-4 times and is retried; execution starts are taken from the hook's own log; oracle: every window of starts satisfies count <= B + ceil(T/I) + 1 (one token of slack for timer lateness; the exact bound is decided on synthetic time by the limiter part). Real clock, sampled. Non-trivial: >= B+2 executions of a limited hook."
+const ruleE2E = "the real operator with a scripted hook carrying settings (executionMinInterval 200-400ms, executionBurst 1-2, or none) in its own or the main queue (shared with an unthrottled hook), in half of the cases with 2-3 schedule bindings in queues of their own (the limit is per hook), in 2 of 5 cases with 3-4 ungrouped kubernetes bindings whose Synchronization executions at start-up count as executions; 2-6 tick rounds injected as a burst or with gaps; the first execution fails 0-4 times and is retried; execution starts are taken from the hook's own log; oracle: every window of starts satisfies count <= B + ceil(T/I) + 1 (one token of slack for timer lateness; the exact bound is decided on synthetic time by the limiter part). Real clock, sampled. Non-trivial: >= B+2 executions of a limited hook."
 
 func TestE2E(t *testing.T) {
 	ev.Main(t, ev.Spec[E2ECase]{Property: "C18", Part: "e2e", Rule: ruleE2E, Gen: genE2E, Run: runE2E, Journal: true})
